@@ -1,7 +1,8 @@
 from lib.core import Ctx, Job
 
 H = "harness/C10_setorder.py"
-NAMES = ["rows_two_types", "rows_three_types", "maybe_undefined_two", "unused_two", "leak_in_branches", "accepted_many_live",
+NAMES = ["maybe_undefined_siblings", "maybe_undefined_three", "closure_captures", "closure_captures_gate_off", "struct_fields_live", "nested_loops_break",
+         "array_comp_captures", "generic_two", "rows_two_types", "rows_three_types", "maybe_undefined_two", "unused_two", "leak_in_branches", "accepted_many_live",
          "accepted_qubits", "unsolved_two", "use_after_move_two", "accepted_for"]
 
 
@@ -12,14 +13,18 @@ def run(ctx: Ctx) -> int:
         for grp in ("others", "worklists"):
             jobs.append(Job(H, "h_order", timeout=ctx.pick(150, 900), name=f"h_order[{name},{grp},K={k}]",
                             env={"VERIF_C10_PROG": p, "VERIF_C10_K": k, "VERIF_C10_SITES": grp}))
+        jobs.append(Job(H, "h_order_policy", timeout=ctx.pick(150, 600), name=f"h_order_policy[{name},all sites]",
+                        env={"VERIF_C10_PROG": p, "VERIF_C10_SITES": "all"}))
     ctx.functions_encoded = ["every module of guppylang_internals reached by check() on the corpus, recompiled from the current source with set iteration made explicit "
                              "(lib/setorder.py): cfg/analysis.py worklists, cfg/cfg.py update_reachable, checker/cfg_checker.py check_rows_match and every other for/comprehension/"
                              "iter/list/tuple/star/pop site (those that received a set with >= 2 elements are listed in the evidence as `set_sites_exercised`)"]
-    ctx.bounds = {"programs": f"{len(NAMES)} (6 rejected with several simultaneous faults, 4 accepted with several live variables)",
+    ctx.bounds = {"programs": f"{len(NAMES)} (9 rejected with several simultaneous faults / candidate locations, 9 accepted with several live or captured variables)",
                   "order decisions": f"the first {k} decisions (element picked next out of a set with >= 2 elements) per site group are solver-chosen, later ones canonical",
-                  "site groups": "worklists (analysis.py / cfg.py pops) | others"}
+                  "site groups": "worklists (analysis.py / cfg.py pops) | others",
+                  "policies": "144 whole-run schedules per program: decision i picks element (a*i*i + b*i + c) mod n, a < 4, b < 6, c < 6 (solver-chosen)"}
     ctx.outside_claim = ["byte-identical HUGR (back end cannot run for /repo here)", "identity of heap addresses other than through set order (e.g. id()-keyed dicts)",
-                         "sites the corpus never reaches with a set of two or more elements", "name counters of temporaries and object addresses in the dump (normalised away)"]
+                         "sites the corpus never reaches with a set of two or more elements", "name counters of temporaries and object addresses in the dump (normalised away)",
+                         "the order of variables inside a block signature (it does vary with the worklist order; compile_bb re-sorts every row by name, read in compiler/cfg_compiler.py, not executed)"]
     ctx.assumptions = ["set iteration order is the only channel through which hash seed / heap layout reach the front end"]
     ctx.crosshair(jobs)
     # which rewritten sites actually received a set with >= 2 elements (concrete run of each program, canonical order)
